@@ -64,7 +64,7 @@ def written_2d(run, tier):
         data = inputs.cube(shape, run.seed + 50 + k)
         hdrs = [{segyio.TraceField.CDP_X: 100 + t, segyio.TraceField.CDP_Y: 7 * t, segyio.TraceField.CDP: t + 1,
                  segyio.TraceField.offset: 3} for t in range(shape[0])]
-        inputs.write_segy_traces(sgy, data, np.arange(shape[1]) * 4.0, hdrs)
+        inputs.write_segy_traces(sgy, data, (-16.0 if k % 2 else 0.0) + np.arange(shape[1]) * 4.0, hdrs)        # (time zero inside the axis)
         try:
             writers.segy_to_sgz(sgy, p, writers.rate_arg(rate), bs)
         except BaseException as e:
